@@ -385,6 +385,7 @@ MULTI_OPS = {
 INTERVAL_OPS = {'isi_distance_bi', 'isi_distance_multi', 'isi_distance_matrix', 'spike_distance_bi',
                 'spike_distance_multi', 'spike_distance_matrix', 'spike_sync_bi', 'spike_sync_multi',
                 'spike_sync_matrix'}
+NO_INTERVAL_OPS = {'order_bi', 'order_multi', 'dir_values', 'dir_bi', 'dir_matrix'}
 INDEX_OPS = {o for v in MULTI_OPS.values() for o in v}
 
 
@@ -400,6 +401,8 @@ def api_cases(rng, n, measures=('isi', 'spike', 'sync', 'order', 'dir'), with_id
             tg.append('empty-train')
         for op in MULTI_OPS[meas]:
             iv = random_interval(rng, ts, te) if (with_iv and op in INTERVAL_OPS and rng.random() < 0.5) else None
+            if with_iv and op in NO_INTERVAL_OPS and rng.random() < 0.04:
+                iv = random_interval(rng, ts, te)     # `interval` is documented as unsupported: both sides must reject
             idx = None
             if with_idx and len(L) > 2 and rng.random() < 0.4:
                 k = rng.randint(2, len(L))
@@ -409,6 +412,8 @@ def api_cases(rng, n, measures=('isi', 'spike', 'sync', 'order', 'dir'), with_id
         i, j = rng.sample(range(len(L)), 2)
         for op in BI_OPS[meas]:
             iv = random_interval(rng, ts, te) if (with_iv and op in INTERVAL_OPS and rng.random() < 0.5) else None
+            if with_iv and op in NO_INTERVAL_OPS and rng.random() < 0.04:
+                iv = random_interval(rng, ts, te)
             extra = [rng.choice([0, 1])] if op in ('order_bi', 'dir_bi') else []
             yield op, [kw_field(mrts, ri, mt, 1, iv, extra), idx_field(None), tfs[i], tfs[j]], tg + (['interval'] if iv else [])
 
